@@ -13,8 +13,9 @@ CONSTANTS Kind, GN, GM, GWidths,
           SmallN, SmallM, SmallW,    \* the exhaustive core of the case space ...
           SampleMod, Salt,           \* ... and a 1/SampleMod sample of the rest (SampleMod = 1: everything)
           PartSel                    \* residue (mod 5) of the append cases that also get short last chunks
-VARIABLE case
-gvars == <<files, case>>
+VARIABLES stage, case
+gvars == <<files, stage, case>>
+Groups == 16       \* initial states; their successors (the cases) are expanded by parallel TLC workers
 
 Sizes(n, short) == [i \in 1..n |-> IF i = n /\ short THEN 1 ELSE ChunkSz]
 Sampled(x) == (x + Salt) % SampleMod = 0
@@ -40,8 +41,10 @@ AppendExpected(c) ==
     [kind |-> "append", w |-> c.w, lk |-> c.lk, bsz |-> bsz, nsz |-> nsz, L |-> Sum(bsz), L2 |-> Sum(nsz),
      leaves |-> (IF c.n = 0 THEN <<>> ELSE bsz) \o nsz]
 
-GInit == files = <<>> /\ case \in (IF Kind = "import" THEN ImportCases ELSE AppendCases)
-GNext == FALSE /\ UNCHANGED gvars      \* no steps: every initial state is one case
+CaseSet == IF Kind = "import" THEN ImportCases ELSE AppendCases
+Bucket(c) == (c.n + 3 * c.w + (IF c.lk = "raw" THEN 7 ELSE 0)) % Groups
+GInit == files = <<>> /\ stage = 0 /\ case \in {[g |-> k] : k \in 0..(Groups - 1)}
+GNext == stage = 0 /\ stage' = 1 /\ case' \in {c \in CaseSet : Bucket(c) = case.g} /\ UNCHANGED files
 GSpec == GInit /\ [][GNext]_gvars
-Emit == PrintT(<<"BEHAVIOUR", ToJson(IF Kind = "import" THEN ImportExpected(case) ELSE AppendExpected(case))>>)
+Emit == stage = 0 \/ PrintT(<<"BEHAVIOUR", ToJson(IF Kind = "import" THEN ImportExpected(case) ELSE AppendExpected(case))>>)
 =============================================================================
